@@ -19,8 +19,8 @@ tvars == <<vars, tid, l>>
 Tr == Traces[tid]
 HS == SortedSeq(Hosts)
 
-TaskOf(x) == T(x.k, x.h, x.x, x.c)
-ThreadOf(x) == R(x.via, x.canc, x.plan, x.conn)
+TaskOf(x) == T(x.k, x.h, x.x, x.c, x.a)
+ThreadOf(x) == R(x.via, x.canc, x.att, x.plan, x.conn, x.st)
 BagIs(b, arr, Of(_)) == /\ DOMAIN b = {Of(arr[i]) : i \in 1..Len(arr)}
                         /\ \A i \in 1..Len(arr) : b[Of(arr[i])] = arr[i].n
 SeqBag(s) == [x \in ToSet(s) |-> Cardinality({i \in 1..Len(s) : s[i] = x})]
